@@ -432,29 +432,29 @@ set_option maxRecDepth 100000
 format's case, `<bound> != nil` and one of the two recognised spellings of the test on
 `Exclusive<bound>`; and for each value of that flag (absent, false, true) the guard fires exactly
 when the model's `compileInt` picks that member. The member is stored in the matching oneof slot. -/
-theorem C12_src_inclusivity_table : writerInclusivityMatchesModel = true ∧ writerSlotsMatch = true := by decide
+theorem C12_src_inclusivity_table : writerInclusivityMatchesModel = true ∧ writerSlotsMatch = true := by decide +kernel
 
 /-- required: `node.Schema.Required`, forced for primary keys, written as
 `(buf.validate.field).required = true` (the model's `setRequired` / `psmPrimaryKey`) -/
-theorem C12_src_required_written : writerRequiredFacts = true := by decide
+theorem C12_src_required_written : writerRequiredFacts = true := by decide +kernel
 
 /-- array / map: item (value) constraints are attached whenever they or the container rules exist,
 each container rule under `Rules != nil` alone (`wrapArray` / `wrapMap`); key formats map to
 uuid / the id62 pattern / the declared pattern / nothing (`keyStringC`) -/
-theorem C12_src_containers_and_keys : containerGuardFacts = true ∧ keyFormatFacts = true := by decide
+theorem C12_src_containers_and_keys : containerGuardFacts = true ∧ keyFormatFacts = true := by decide +kernel
 
 /-- the range check of integer bounds (`checkIntegerBound`, 33463c1): per format the spelled
 interval test agrees with the model's `boundFits` around every boundary -/
-theorem C12_src_bound_range_check : boundCheckFacts = true := by decide
+theorem C12_src_bound_range_check : boundCheckFacts = true := by decide +kernel
 
 /-- every rule kind has a branch: each member of `schema.Field.type` is a case of `buildField`
 (`buildProperty` for array / map), and unknown members are errors -/
-theorem C12_src_branches : everyMemberHasWriterBranch = true ∧ writerDefaultsPresent = true := by decide
+theorem C12_src_branches : everyMemberHasWriterBranch = true ∧ writerDefaultsPresent = true := by decide +kernel
 
 /-- the rule fields the writer reads: every field of every `…Field.Rules` message except the
 explicit list (multipleOf, object min/maxProperties: ignored; float rules: compile error;
 timestamp bounds: not expressible in j5s text) -/
-theorem C12_src_rule_fields_read : everySchemaFieldIsReadOrListed = true := by decide
+theorem C12_src_rule_fields_read : everySchemaFieldIsReadOrListed = true := by decide +kernel
 
 end Src
 
